@@ -87,6 +87,9 @@ class Prior(HoloPyObject):
         return self + value
 
     def __sub__(self, value):
+        if isinstance(value, np.generic):
+            # the negative of an unsigned numpy scalar wraps around
+            value = value.item()
         return self + (-value)
 
     def __rsub__(self, value):
